@@ -1,5 +1,7 @@
 package engine
 
+import "bytes"
+
 // Stored-byte corruption between runs (fault kinds B1..B5).
 func corruptFile(w *World, op *Op) {
 	data, ok := w.FS.Get(op.Path)
@@ -53,6 +55,43 @@ func corruptFile(w *World, op *Op) {
 		out = append(append(append([]byte(nil), out[:o]...), ins...), out[o:]...)
 	case "prefix":
 		out = append(w.opBytes(op), out...)
+	case "crlf":
+		out = bytes.ReplaceAll(out, []byte("\n"), []byte("\r\n"))
+	case "hash-only":
+		// a hash line without newline at the end of the file, optionally followed by nothing else
+		out = []byte("#HASH:" + b64(r.Bytes(20)))
+		if r.Bool() {
+			out = append(data, out...)
+		}
+	case "double-hash":
+		out = append([]byte("#HASH:"+b64(r.Bytes(20))+"\n"), out...)
+	case "pem-headers":
+		pf := splitPEM(out)
+		if len(pf.Blocks) > 0 {
+			b := pf.Blocks[r.Intn(len(pf.Blocks))]
+			hdr := "-----BEGIN " + b.Type + "-----\nProc-Type: 4,ENCRYPTED\nDEK-Info: AES-128-CBC,00\n\n"
+			body := pemEncode(b.Type, b.Bytes)
+			body = body[bytes.IndexByte(body, '\n')+1:]
+			out = append(append(append([]byte(nil), out[:b.Start]...), append([]byte(hdr), body...)...), out[b.End:]...)
+		}
+	case "weird-key":
+		// structurally valid PKCS#8 with a degenerate key in place of the stored one
+		var der []byte
+		switch r.Intn(5) {
+		case 0: // EC scalar zero
+			der = derSeq(derSmallInt(0), derSeq(derOIDBytes(oidECPub), derOIDBytes(curveOIDByName["P-256"])), derOctets(derSeq(derSmallInt(1), derOctets(make([]byte, 32)))))
+		case 1: // EC scalar >= group order
+			ff := bytes.Repeat([]byte{0xff}, 32)
+			der = derSeq(derSmallInt(0), derSeq(derOIDBytes(oidECPub), derOIDBytes(curveOIDByName["brainpoolP256r1"])), derOctets(derSeq(derSmallInt(1), derOctets(ff))))
+		case 2: // EC without any curve
+			der = derSeq(derSmallInt(0), derSeq(derOIDBytes(oidECPub)), derOctets(derSeq(derSmallInt(1), derOctets([]byte{1}))))
+		case 3: // RSA with a tiny modulus
+			one := derSmallInt(1)
+			der = derSeq(derSmallInt(0), derSeq(derOIDBytes(oidRSA), derNull()), derOctets(derSeq(derSmallInt(0), derSmallInt(3233), derSmallInt(17), derSmallInt(413), derSmallInt(61), derSmallInt(53), one, one, one)))
+		default: // EC scalar empty
+			der = derSeq(derSmallInt(0), derSeq(derOIDBytes(oidECPub), derOIDBytes(curveOIDByName["P-521"])), derOctets(derSeq(derSmallInt(1), derOctets(nil))))
+		}
+		out = append(cutBlocks(out, isKeyType), pemEncode("PRIVATE KEY", der)...)
 	}
 	w.FS.Put(op.Path, out)
 }
